@@ -24,7 +24,9 @@ RULE = ('exposure: every bit depth 1..32, images with samples at 0, around full 
 ASSUMPTIONS = ['unsigned cast of an in-range non-negative double = floor (NumPy astype); out-of-range casts never occur on the repaired code',
                'np.random.poisson / np.random.normal replaced by their means through the prysm.mathops shim',
                'NumPy row-major reshape / broadcast_to / mean / sum; scipy.ndimage.convolve mode=reflect (modelled index reflection)',
-               'exposure DN compared exactly; binning / Malvar values at 1e-12 relative (exact rationals vs doubles)']
+               'exposure DN compared exactly (one count of slack only for samples within rounding of an integer); binning / Malvar values at 1e-12 relative (exact rationals vs doubles)',
+               'bindown(sum) on int32/uint32/bool arrays relies on NumPy promoting the accumulator to 64 bits (Linux/macOS, or NumPy >= 2 on Windows)',
+               'the real-RNG pass checks range / dtype / shape and an 8-sigma band around the noise-free DN only; the distribution of the draws is not tested']
 
 
 def _impl():
@@ -712,7 +714,7 @@ def correspondence(ctx):
         fl = [f] * len(shape) if isinstance(f, int) else list(f)
         oshape = tuple(s // k for s, k in zip(shape, fl))
         nt = int(np.prod(shape)) > 1 and any(k > 1 for k in fl)
-        for rep in range(ctx.scale(1, 4)):
+        for rep in range(ctx.scale(1, 4) * (2 if ctx.widen else 1)):
             a = _ints(rng, shape)
             y = _ints(rng, oshape)
             fj = f if isinstance(f, int) else list(f)
@@ -783,7 +785,7 @@ def correspondence(ctx):
     # ---------------- Bayer
     for (m, n) in BAYER_SHAPES:
         for cfa in ('rggb', 'bggr'):
-            for rep in range(ctx.scale(2, 6)):
+            for rep in range(ctx.scale(2, 6) * (2 if ctx.widen else 1)):
                 img = rng.integers(0, 4096, size=(m, n)).astype(float)
                 desc = {'shape': [m, n], 'cfa': cfa, 'rep': rep}
                 tag = f'{cfa}'
@@ -1014,23 +1016,32 @@ def replay(inp):
 
 
 MANIFEST_ENTRY = {
-    'technique': 'Lean 4 proof (ordered-field / floor reasoning, finite-sum bijections, finite table case analysis) over '
+    'technique': 'Lean 4 proof (ordered-field / floor reasoning, induction over the list of axes, finite table case analysis) over '
                  'translator-generated definitions + exact-integer correspondence of an executable model with the real functions',
-    'text': ('PROVED over every linearly ordered field with floor (Q, R): with the random draws replaced by their means, the DN of '
-             'Detector.expose lies in [0, 2^bits-1] for every bit depth 1..32 and EVERY input (any image value, gain, bias, full well, '
-             'non-uniformity); DN is non-decreasing in the incident signal through and beyond saturation; DN equals the floor of the '
-             'clipped gain-scaled signal; saturated pixels read 2^bits-1. For every number of axes, shape and per-axis factors: the '
-             'block index maps are a bijection, bindown(sum) and tile(sum) conserve the total, bindown(avg) and tile(avg) conserve the '
-             'level, bindown(avg)/tile(sum) and bindown(sum)/tile(avg) are adjoint, bindown undoes tile. Bayer: the four slices '
-             'partition every even-shaped mosaic, recomposite(decomposite)=id and decomposite(recomposite)=id for both layouts, '
-             'composite and wb_prescale act on the native site of each colour, Malvar copies the raw sample at the native site of '
-             'each channel, the four kernels are 5x5, point-symmetric and sum to 1 after normalisation, a uniform mosaic demosaicks to the '
-             'same level everywhere; safe white-balance limiting leaves no inspected plane above saturation (any plane list). TRANSLATED from the source '
-             'each run: the ADC ceiling, container-width chain and the order of full-well clip / gain / ADC clips of expose (statement '
-             'by statement), bindown/tile shape formulas, reduction axes and scale factors, the Bayer slices, plane/site/gain tables, '
-             'Malvar source table, kernels and divisor, the safe-white-balance loop step and the number of planes it inspects. MODELLED AND COMPARED: exposure on doubles (DN compared exactly, all bit '
-             'depths, maps, frames), N-D binning/tiling and the full Malvar demosaick (reflect boundary) on exact rationals.'),
-    'note': ('Trusted: the unsigned cast of an in-range double is floor; poisson/normal are replaced by their means (statistics of '
-             'the draws are not covered); NumPy reshape/broadcast/ndimage.convolve semantics (compared). Not covered: lut, '
-             'assemble_superresolved, non-2-D aerial images.'),
+    'text': ('PROVED over every linearly ordered field with floor (Q, R), for the noise-free chain (random draws replaced by their '
+             'means; the unsigned cast modelled as floor mod 2^w): the DN of Detector.expose lies in [0, 2^bits-1] for every bit '
+             'depth 1..32 and every input; DN is non-decreasing in the incident signal through and beyond saturation; DN equals the '
+             'floor of the clipped gain-scaled signal; saturated pixels read 2^bits-1. Binning / tiling, stated over the functions '
+             'the driver executes (totL/binL/tileL; binND/tileND are these read through row-major index maps - bridge theorem), by '
+             'induction over the axes, for every number of axes, shape and factor list: bindown(sum) and tile(sum) conserve the '
+             'total, bindown(avg) and tile(avg) conserve the level, bindown(avg)/tile(sum) and bindown(sum)/tile(avg) are adjoint, '
+             'bindown undoes tile (over a field: integer containers are covered by the correspondence only). Bayer (sample '
+             'positions over N x N, no shape involved; the reflect boundary and shapes are covered by the correspondence only): '
+             'the four slices partition the samples, recomposite(decomposite)=id and back for both layouts, composite / wb_prescale '
+             '/ wb_postscale act on the native site / channel of each colour, Malvar copies the raw sample at the native site, '
+             'kernels 5x5, symmetric, unit sum, uniform mosaic -> uniform image; safe white balance WITH UNIT GAINS leaves no '
+             'inspected plane above its saturation level. TRANSLATED each run: ADC ceiling, container-width chain, the clip / gain / '
+             'clip chain of expose statement by statement (nothing but shape handling / lut / return may follow the cast), '
+             'bindown/tile shape formulas, reduction axes, scale factors, Bayer slices and plane/site/gain tables (pre and post), '
+             'Malvar source table, kernels, divisor, the safe-limiting loop step. RECOGNISER FACTS only (no Lean content): output '
+             'shape (frames, *image.shape), interleaved views, mode tables, planes inspected / per-plane saturation / gains divided. '
+             'MODELLED AND COMPARED (driver runs the HAND model): exposure on doubles (DN exact, bits 1..32, maps, frames, 1-D..4-D '
+             'images), container rejection for bits > 32, N-D binning/tiling on floats and on uint8/16/32, int8/16/32, bool arrays '
+             'at the container ends, frames from expose sum-binned, all mode spellings, full Malvar demosaick on rationals, Bayer '
+             'functions on uint8/uint16/int32/float32/float64 (fractions, > 2^24) with dtype preservation, output= buffers, '
+             'upper-case layouts, distinct gains and per-plane saturation lists; one pass per bit depth with the REAL seeded RNG '
+             '(range, dtype, shape, 8-sigma band) and a recording of what is asked of the RNG (rate, sigma, sizes).'),
+    'note': ('Trusted: the unsigned cast of an in-range double is floor; NumPy reshape/broadcast/ndimage.convolve semantics '
+             '(compared); 64-bit accumulation of integer sums. Not covered: the distribution of the random draws, lut, '
+             'assemble_superresolved, safe white balance with non-unit gains (nothing is promised by the code).'),
 }
